@@ -55,6 +55,62 @@ func refSelftest() (fails int) {
 			}
 		}
 	})
+	// composite operations (activations, losses, FC): analytic VJP vs finite
+	// differences, and the primitive mirror (Expand) vs the analytic formulas
+	for ci, cp := range compositeSelftestPrograms() {
+		vals, ok := cp.Forward()
+		if !ok {
+			report(fmt.Sprint("composite", ci), "invalid")
+			continue
+		}
+		root := cp.NTensors() - 1
+		grads, _ := cp.Backward(vals, root, nil, false)
+		for li := range cp.Leaves {
+			if !cp.Tracked[li] {
+				continue
+			}
+			for e := range cp.Leaves[li].V {
+				fd := fdiff(func() float64 {
+					v, _ := cp.Forward()
+					s := 0.
+					for _, x := range v[root].V {
+						s += x
+					}
+					return s
+				}, &cp.Leaves[li].V[e])
+				if math.Abs(fd-grads[li].V[e]) > 1e-5*(1+math.Abs(fd)) {
+					report(fmt.Sprint("composite", ci, " ", cp.Nodes[len(cp.Nodes)-2].Op), fmt.Sprintf("leaf %d elem %d: analytic %v vs finite difference %v", li, e, grads[li].V[e], fd))
+				}
+			}
+		}
+		ex, idmap := cp.Expand()
+		ev, ok := ex.Forward()
+		if !ok {
+			report(fmt.Sprint("composite", ci), "mirror invalid")
+			continue
+		}
+		eg, _ := ex.Backward(ev, idmap[root], nil, false)
+		for i := 0; i < cp.NTensors(); i++ {
+			for k := range vals[i].V {
+				if math.Abs(vals[i].V[k]-ev[idmap[i]].V[k]) > 1e-9*(1+math.Abs(vals[i].V[k])) {
+					report(fmt.Sprint("composite", ci), "mirror forward differs from formula")
+				}
+			}
+			if (grads[i] == nil) != (eg[idmap[i]] == nil) {
+				report(fmt.Sprint("composite", ci), "mirror gradient nil-ness differs")
+				continue
+			}
+			if grads[i] != nil {
+				for k := range grads[i].V {
+					if math.Abs(grads[i].V[k]-eg[idmap[i]].V[k]) > 1e-9*(1+math.Abs(grads[i].V[k])) {
+						report(fmt.Sprint("composite", ci), fmt.Sprintf("mirror gradient of tensor %d differs from analytic: %v vs %v", i, eg[idmap[i]].V, grads[i].V))
+						break
+					}
+				}
+			}
+		}
+		n++
+	}
 	// the DAG reverse pass on programs with fan-out and reconvergence
 	progs := selftestPrograms()
 	for pi, p := range progs {
@@ -127,4 +183,44 @@ func selftestPrograms() []*ref.Program {
 			{Op: ref.Op{K: "Add"}, In: []int{4, 0}},
 		}},
 	}
+}
+
+// compositeSelftestPrograms: leaf -> composite -> Mul by non-uniform weights.
+func compositeSelftestPrograms() []*ref.Program {
+	var out []*ref.Program
+	mk := func(op ref.Op, leaves []*ref.T, tracked []bool) {
+		p := &ref.Program{Leaves: leaves, Tracked: tracked}
+		in := make([]int, len(leaves))
+		for i := range in {
+			in[i] = i
+		}
+		p.Nodes = []ref.Node{{Op: op, In: in}}
+		q, _ := withWeighting(p, len(leaves), 77)
+		out = append(out, q)
+	}
+	for _, s := range [][]int{{3}, {2, 3}, {2, 2, 3}} {
+		x := func() []*ref.T { return []*ref.T{enum.Generic(s, 9, 0.2, 2, true)} }
+		mk(ref.Op{K: "Relu"}, x(), []bool{true})
+		mk(ref.Op{K: "LeakyRelu", F: 0.3}, x(), []bool{true})
+		mk(ref.Op{K: "Sigmoid"}, x(), []bool{true})
+		mk(ref.Op{K: "TanhAct"}, x(), []bool{true})
+		for d := range s {
+			mk(ref.Op{K: "Softmax", Dim: d}, x(), []bool{true})
+		}
+	}
+	for _, b := range []int{1, 3} {
+		p := func() *ref.T { return enum.Generic([]int{b}, 3, 0.1, 0.9, false) }
+		t := func() *ref.T { return enum.Generic([]int{b}, 4, 0.1, 0.9, false) }
+		mk(ref.Op{K: "MSE"}, []*ref.T{p(), t()}, []bool{true, true})
+		mk(ref.Op{K: "BCE"}, []*ref.T{p(), t()}, []bool{true, true})
+		for _, c := range []int{1, 2} {
+			mk(ref.Op{K: "CE"}, []*ref.T{enum.Generic([]int{b, c}, 3, 0.1, 0.9, false), enum.Generic([]int{b, c}, 4, 0.1, 0.9, false)}, []bool{true, true})
+		}
+		for _, d := range []int{1, 2} {
+			for _, o := range []int{1, 3} {
+				mk(ref.Op{K: "FC"}, []*ref.T{enum.Generic([]int{b, d}, 5, 0.5, 2, true), enum.Generic([]int{o}, 6, 0.5, 2, true), enum.Generic([]int{o}, 7, 0.5, 2, true)}, []bool{true, true, true})
+			}
+		}
+	}
+	return out
 }
